@@ -152,7 +152,7 @@ Definition ex_case : case :=
                 ex_mk 3 1 7 8 (RLookup 0 na) (ex_obs_create 1 [na]) ];
      k_final := [ex_root_dump; ([na], (KFile, 420, 0, 0, 0, [], [], 0)); ([nb], (KFile, 420, 0, 0, 0, [], [], 0))];
      k_hist := []; k_probe := []; k_table := []; k_issued := [];
-     k_acsize := 0; k_dcsize := 0; k_gor0 := 0; k_gor1 := 0; k_deadlock := false; k_panic := false |}.
+     k_acsize := 0; k_dcsize := 0; k_gor0 := 0; k_gor1 := 0; k_deadlock := false; k_panic := false; k_race := false |}.
 Example ex_case_linearizable : exists ids, lin_check ex_case = Linearizable ids.
 Proof. eexists. vm_compute. reflexivity. Qed.
 (* both orders of the two concurrent CREATEs are linearizations (they commute on the projection) ... *)
@@ -169,6 +169,6 @@ Definition ex_bad_case : case :=
               [ex_mk 3 1 7 8 (RLookup 0 na) {| ob_rpc := 0; ob_status := 2; ob_attrs := [None]; ob_wcc := []; ob_fh := None;
                                                ob_nums := []; ob_bytes := []; ob_entries := []; ob_eof := false |}];
      k_final := k_final ex_case; k_hist := []; k_probe := []; k_table := []; k_issued := [];
-     k_acsize := 0; k_dcsize := 0; k_gor0 := 0; k_gor1 := 0; k_deadlock := false; k_panic := false |}.
+     k_acsize := 0; k_dcsize := 0; k_gor0 := 0; k_gor1 := 0; k_deadlock := false; k_panic := false; k_race := false |}.
 Example ex_bad_case_rejected : lin_check ex_bad_case = NoLinearization.
 Proof. vm_compute. reflexivity. Qed.
